@@ -1,2 +1,5 @@
 pub mod cong;
 pub mod inv;
+pub mod group;
+pub mod slotmap;
+pub mod slots;
